@@ -976,6 +976,9 @@ LAME_KEYS = {"lambda-E": "C17:lame_parameters:lambda-E:precedence", "nu-E": "C17
 
 def gen_lame_pairs(rng, tier):
     for pair in LAME_PAIRS:
+        # the boundary of the valid range: lambda = 0, i.e. Poisson's ratio exactly 0 (a value that is falsy in Python)
+        if pair != "lambda-nu":     # (lambda, nu) = (0, 0) does not determine mu (0/0): not a valid pair
+            yield {"pair": pair, "lam": 0.0, "mu": round(rng.uniform(0.05, 3.0), 3)}
         for _ in range(_n(tier, 4, 60, 12)):
             yield {"pair": pair, "lam": round(rng.uniform(0.05, 3.0), 3), "mu": round(rng.uniform(0.05, 3.0), 3)}
 
